@@ -80,6 +80,27 @@ def gen_nested_gated(rng: random.Random) -> dict:
     return {"program": [inner, {"name": "outer", "nodes": outer_nodes, "bound": []}], "values": values, "cfg": {}}
 
 
+def gen_cut_off_gate(rng: random.Random) -> dict:
+    """A gate that the entry-point configuration cuts off (it is not downstream of the entry node) keeps controlling its targets: targets of
+    a closed-by-default gate that never decides do not start; targets of a default-open one may."""
+    closed = rng.random() < 0.7
+    k = rng.choice([2, 2, 3])
+    ts = [f"br{i}" for i in range(k)]
+    if rng.random() < 0.5 and k == 2:
+        gate = {"name": "choose", "kind": "ifelse", "params": [["flag", None]], "targets": ts, "body": {"b": "lt", "k": 1}, "defaultOpen": not closed}
+    else:
+        gate = {"name": "choose", "kind": "route", "params": [["flag", None]], "targets": ts, "multiTarget": False, "fallback": None, "defaultOpen": not closed,
+                "body": {"b": "table", "rows": [[i, t] for i, t in enumerate(ts)], "dflt": ts[0]}}
+    nodes = [gate, {"name": "load", "kind": "fn", "params": [["path", None]], "dataOuts": ["text"], "body": {"b": "sum", "k": 1}}]
+    nodes += [{"name": t, "kind": "fn", "params": [["text", None]], "dataOuts": [f"o_{t}"], "body": {"b": "tag", "t": t}} for t in ts]
+    if rng.random() < 0.5:
+        nodes.append({"name": "after", "kind": "fn", "params": [[f"o_{ts[0]}", None]], "dataOuts": ["fin"], "body": {"b": "tag", "t": "after"}})
+    rng.shuffle(nodes)
+    entry = rng.choice([["load"], ["load"], [ts[0]]])
+    values = [["path", rng.randint(0, 3)]] if entry == ["load"] else [["text", rng.randint(0, 3)]]
+    return {"program": [{"name": "g0", "nodes": nodes, "bound": [], "entrypoints": entry}], "values": values}
+
+
 class C03(RunProp):
     id = "C03"
     level = "proof"
@@ -100,9 +121,10 @@ class C03(RunProp):
             elif r < 0.18:
                 c = gen_nested_gated(rng)
                 c["kind"] = "nested"
-            elif False:
-                pass
-            elif r < 0.26:
+            elif r < 0.22:
+                c = gen_cut_off_gate(rng)
+                c["kind"] = "entry"
+            elif r < 0.29:
                 c = gen.gen_nested_gate_loop(rng)
                 c["kind"] = "loop"
             elif r < 0.75:
